@@ -146,3 +146,4 @@ def gen_act(parent):
                             act = {(ans[1], where): acts}
                         yield ({"parent": parent, "init": {}, "react": react, "act": act, "start": c,
                                 "events": ["A", "A"]}, True)
+
